@@ -126,7 +126,7 @@ def _gen(ctx, prop):
 L2_PROPS = {'C01': 160, 'C02': 120, 'C03': 120, 'C04': 80, 'C05': 100, 'C08': 100, 'C06': 120, 'C07': 40}
 
 
-def _l2_traces(ctx, prop, histories=None):
+def _l2_traces(ctx, prop, histories=None, scn_name='base'):
     """Master-level (L2) executions judged by the same scheduler clauses: the
     real Master/loader drive the Cell (reload_server, restore_placement,
     loader.resources with spelled quantities, presence-driven state changes)."""
@@ -134,6 +134,7 @@ def _l2_traces(ctx, prop, histories=None):
         return []
     from . import master_common as mcm, master_l2
     rng = random.Random(ctx.seed * 31337 + 7)
+    generated = histories is None
     if histories is None:
         n = L2_PROPS[prop] * (1 if ctx.quick else 6)
         histories = [mcm.gen_random(mcm.SCENARIOS['base'], rng, rng.choice([8, 12, 16]))
@@ -162,8 +163,11 @@ def _l2_traces(ctx, prop, histories=None):
             histories += [mcm.gen_identity(mcm.SCENARIOS['base'], rng, rng.choice([4, 6, 9]))
                           for _ in range(n // 2)]
     out = []
-    raw = mcm.record('base', histories)
+    raw = mcm.record(scn_name, histories)
     ctx.l2raw = raw
+    if prop == 'C01' and generated:
+        raw = raw + mcm.record('big', [mcm.gen_resize(mcm.SCENARIOS['big'], rng)
+                                       for _ in range(30 if ctx.quick else 300)])
     for t in raw:
         for seg in master_l2.sched_segments('l2-' + t['tid'], t['lines']):
             seg['history'] = t['history']
@@ -329,7 +333,9 @@ def replay(ctx, prop, path):
     if not h or h[-1][0] != 'Cycle':
         h.append(('Cycle', []))
     if payload.get('kind') == 'sched_l2':
-        traces = _l2_traces(ctx, prop, [h])
+        scn_name = payload.get('scenario', 'base')
+        scn_name = scn_name[3:] if scn_name.startswith('l2-') else scn_name
+        traces = _l2_traces(ctx, prop, [h], scn_name if scn_name in ('base', 'big') else 'base')
         verdicts, _ = sc.validate(traces)
         return judge(ctx, prop, traces, verdicts)
     traces = sc.record(payload['scenario'], [h])
